@@ -62,6 +62,9 @@ def strategy(tier):
         st.fixed_dictionaries({'op': st.just('save'), 'c': ci, 'v': val}),
         st.fixed_dictionaries({'op': st.just('get'), 'c': ci}),
         st.fixed_dictionaries({'op': st.just('block'), 'c': ci, 'muts': mut}),
+        # the block is left by an exception after its modifications
+        st.fixed_dictionaries({'op': st.just('block'), 'c': ci, 'muts': mut,
+                               'raises': st.just(True)}),
         st.fixed_dictionaries({'op': st.just('nested'), 'c': ci,
                                'inner': S.leaves_st(), 'outer': S.leaves_st(),
                                'other': st.one_of(st.none(), ci)}),
@@ -237,15 +240,27 @@ def _run(case, w):
                         if not isinstance(d, dict):
                             d = s[m['k']] = {}
                         d['inner'] = copy.deepcopy(m['v'])
+            class _Left(Exception):
+                pass
             if aio:
                 async def blk():
                     async with sio.session(c['sid'],
                                            namespace=c['ns']) as s:
                         mutate(s)
-                w.do(blk())
+                        if op.get('raises'):
+                            raise _Left()
+                try:
+                    w.do(blk())
+                except _Left:
+                    labels['block_left_by_exception'] = True
             else:
-                with sio.session(c['sid'], namespace=c['ns']) as s:
-                    mutate(s)
+                try:
+                    with sio.session(c['sid'], namespace=c['ns']) as s:
+                        mutate(s)
+                        if op.get('raises'):
+                            raise _Left()
+                except _Left:
+                    labels['block_left_by_exception'] = True
             mutate(model[ci])
             touched.add(ci)
             read(ci, 'get')
